@@ -138,18 +138,7 @@ def run(ctx, rep):
     # Z6: decompress_zstd refuses nothing on its own: every error it returns is one it propagates from zstd or from the
     # reconstruction (a post-check like `result.len() > capacity` turns adequate capacities into errors)
     dz = F.body(PC + "decompress_zstd")
-    own = []
-    for bb in sorted(dz.normal_blocks()):
-        for s in dz.stmts(bb):
-            r = s.get("r") or {}
-            if s.get("k") == "assign" and s["p"]["l"] == 0 and not s["p"]["p"] and r.get("k") == "agg" and r.get("adt") == "std::result::Result" and r.get("vname") == "Err":
-                own.append(dz.where(bb))
-        t = dz.term(bb)
-        if t["k"] == "call" and t.get("dest") and t["dest"]["l"] == 0 and not t["dest"]["p"]:
-            c = t["callee"]
-            lc = c.get("resolved") if c.get("rlocal") else (c.get("def") if c.get("local") else None)
-            if lc and err.always_err(F, lc):
-                own.append(dz.where(bb))
+    own = err.own_errors(F, dz)
     rep.add("Z6", "no-error-of-its-own", not own, "%s:%s" % (dz.file, dz.line), "errors constructed by decompress_zstd itself: %s" % own)
     # "does not panic": every explicit failure construct mono-reachable from the two wrappers — including the error
     # conversions that `?` calls — must be a row of the reviewed table (same table and obligations as C01/A6, C05/X1)
